@@ -20,6 +20,7 @@ theorem gen_devid : Gen.C20.devidExprs = ["int(parsed_uri.netloc)", "crazyradio.
 theorem gen_channel : Gen.C20.channelExpr = "int(parsed_path[0])" ∧ Gen.C20.channelDefault = 2 := by decide
 theorem gen_rates : Gen.C20.rateTable = [("250K", 0), ("1M", 1), ("2M", 2)] ∧ Gen.C20.datarateDefault = 2 := by decide
 theorem gen_address : Gen.C20.addressExpr = "new_addr" ∧ Gen.C20.addrPadArg = "parsed_path[2]" ∧
+    Gen.C20.newAddrExpr = "struct.unpack('<BBBBB', binascii.unhexlify(addr))" ∧
     Gen.C20.addrUnpackArgs = ["binascii.unhexlify(addr)"] ∧ Gen.C20.addressDefault = [0xE7, 0xE7, 0xE7, 0xE7, 0xE7] := by decide
 theorem gen_address_formats : parseFormat Gen.C20.addrPadFmt = some [.field { fill := '0', align := some '>', width := 10 }] ∧
     parseFmt Gen.C20.addrUnpackFmt = some [.B, .B, .B, .B, .B] := by decide
@@ -126,7 +127,9 @@ theorem unknown_dongle_rejected (serials : List Str) (N : Str) (hN : ∀ c ∈ N
 /-! ## Scanning -/
 
 theorem gen_scan : Gen.C20.scanPlainTest = "address is None or address == DEFAULT_ADDR" ∧ Gen.C20.defaultAddrInt = 0xE7E7E7E7E7 ∧
-    Gen.C20.scanAddrUnpackArgs = ["binascii.unhexlify(addr)"] ∧
+    Gen.C20.scanAddrUnpackArgs = ["binascii.unhexlify(addr)"] ∧ Gen.C20.scanAddrPadArg = "address" ∧
+    Gen.C20.scanNewAddrExpr = "struct.unpack('<BBBBB', binascii.unhexlify(addr))" ∧
+    Gen.C20.scanSetAddressCalls = ["self._radio.set_address(new_addr)"] ∧
     Gen.C20.scanPlain.map (fun e => (e.1, e.2.2)) = [(0, ["chan"]), (1, ["chan"]), (2, ["chan"])] ∧
     Gen.C20.scanAddressed.map (fun e => (e.1, e.2.2)) = [(0, ["chan", "address"]), (1, ["chan", "address"]), (2, ["chan", "address"])] := by
   decide
